@@ -208,7 +208,8 @@ def main(mod):
             s = mod.signature(c, results[c["id"]])
             if s is not None:
                 sigs.add(s)
-        det = determinism_selftest(mod, cases, results, 4 if a.tier == "quick" else 32)
+        det = determinism_selftest(mod, cases, results, 8 if a.tier == "quick" else 48)
+        selfcheck = mod.selfcheck(a.tier, seed) if hasattr(mod, "selfcheck") else None
         # ---- report
         for kid, h in known_hits.items():
             print("KNOWN-FINDING: property=%s %s (%s; matched %d case(s), e.g. %s)" % (
@@ -277,6 +278,8 @@ def main(mod):
             cov.update(gs)
             if hasattr(mod, "extra_coverage"):
                 cov.update(mod.extra_coverage(cases, results))
+            if selfcheck is not None:
+                cov["stub_validation"] = selfcheck
             ev = {
                 "property_id": mod.PROP,
                 "tier": a.tier,
